@@ -72,7 +72,9 @@ func c16Aliases(name string) []string {
 	return out
 }
 
-var c16Bad = []string{"..", ".", "", "../x", "../../x", "../../../x", "../../../../x", "../../../../../x", "a/../b", "a/b", "/abs", "x/..", "./foo", "foo/", "foo/../../x", "../foo", "..//x", "foo\x00bar", "\x00", strings.Repeat("a", 5000), strings.Repeat("../", 3) + "etc", "../" + strings.Repeat("b", 300), "foo/.", "./.", "../.", "..\x00", "foo/\x00", "//", "/", "../../../../../../../../tmp/x", "foo//bar", ".//..", "a/./b", "\t/.."}
+var c16Bad = []string{"..", ".", "", "../x", "../../x", "../../../x", "../../../../x", "../../../../../x", "a/../b", "a/b", "/abs", "x/..", "./foo", "foo/", "foo/../../x", "../foo", "..//x", "foo\x00bar", "\x00", strings.Repeat("a", 5000), strings.Repeat("../", 3) + "etc", "../" + strings.Repeat("b", 300), "foo/.", "./.", "../.", "..\x00", "foo/\x00", "//", "/", "../../../../../../../../tmp/x", "foo//bar", ".//..", "a/./b", "\t/..",
+	// a rejected name followed by separators only (what a shell appends when it completes a directory name)
+	"../", "..//", "./", ".//", "..///", "foo//", "../\\", "..\\"}
 
 func onePathComponent(name string) bool {
 	return name != "" && name != "." && name != ".." && !strings.ContainsAny(name, "/\x00")
